@@ -85,3 +85,56 @@ class CanaryP2shTestnetPrefix(_AddrHelper):
     def post(self, c, I, out):
         if out.returned:
             yield "canary.prefix", eq(out.value, SUM.b58chk(seg(ite(I.t, 0xc5, 0x05), 1) + I.h))
+
+
+@contract
+class Bech32DecodeAddress:
+    """C11: helper.bech32_decode_address(addr) hands the address UNCHANGED to bech32.decode with hrp = addr[:2] and
+    returns the program bytes; whatever the segwit decoder rejects (mixed case, ...) is rejected here as well"""
+    target = "btc_hd_wallet.helper.bech32_decode_address"
+    props = ("C11",)
+
+    def run(self, ctx, f, args, kwargs, I):
+        from pyvc.engine import SUMMARIES
+        saved = dict(SUMMARIES)
+
+        def s_decode(c, a, k):
+            kw = dict(zip(["hrp", "addr"], a))
+            kw.update(k)
+            I.calls.append(kw)
+            if I.accept:
+                return (I.ver, c.new_list(list(as_rope(I.prog).bytes_list())))
+            return (None, None)
+        try:
+            SUMMARIES["btc_hd_wallet.bech32.decode"] = s_decode
+            return ctx.call_value(f, args, kwargs)
+        finally:
+            SUMMARIES.clear()
+            SUMMARIES.update(saved)
+
+    def inputs(self, B):
+        from pyvc.seqs import CStr
+        from pyvc.lowbits import LB
+        if B.concrete:
+            from pyvc.engine import Undecided
+            raise Undecided("wiring contract over a summarised decoder (concrete behaviour: C11 bounded differential)")
+        n = 2 + B.case("extra_length", 3) * 20
+        codes = [LB.fresh(f"c{i}", exact=True, bits=21) for i in range(n)]
+        addr = CStr(codes)
+        accept = bool(B.case("decoder_accepts", 2))
+        prog = B.bytes("prog", 20)
+        return [addr], {}, NS(addr=addr, accept=accept, prog=prog, ver=0, calls=[])
+
+    def post(self, c, I, out):
+        yield "ensures.decoder_called_once", len(I.calls) == 1
+        if len(I.calls) == 1:
+            kw = I.calls[0]
+            a = kw.get("addr")
+            yield "ensures.address_passed_unchanged", a is I.addr
+            h = kw.get("hrp")
+            from pyvc.seqs import CStr
+            yield "ensures.hrp_is_first_two_characters", isinstance(h, CStr) and len(h.codes) == 2 and all(x is y for x, y in zip(h.codes, I.addr.codes[:2]))
+        if I.accept:
+            yield "ensures.returns_program", out.returned and eq(out.value, I.prog)
+        else:
+            yield "raises.when_decoder_rejects", out.raised
